@@ -4,15 +4,17 @@ import Comdex.Model.LiqLedger
 
 Lines (tab separated, after `seq`):
   lq.begin   prop queueDur apps funds
-                 apps  = app:feeRate:batch:maxLife:pairFee:poolFee:minDep:minSup:maxPools;…
+                 apps  = app:feeRate:batch:maxLife:pairFee:poolFee:minDep:minSup:maxPools:tickPrec:maxPriceRatio:maxMMTicks;…
                  funds = user:coin:amt;…
   lq.block   height now
   lq.createPair app user base quote ext <outcome>
   lq.createPool app user pair ranged dx dy ammPs ext <outcome>
   lq.deposit app user pool dx dy ext <outcome>
   lq.withdraw app user pool pc ext <outcome>
-  lq.order   app user pair typ buy msgOffer msgPrice price amount lifespan ext <outcome>
-  lq.mmOrder app user pair buyTicks sellTicks lifespan ext <outcome>       tick = offer:price:amount
+  lq.order   app user pair typ buy offerDenom demandDenom msgOffer msgPrice amount lifespan <outcome>
+  lq.mmOrder app user pair maxSell minSell sellAmt maxBuy minBuy buyAmt lifespan <outcome>
+                 (the tick-fitted price, the ticks of a market-making order and the price / tick / denom validations are
+                  computed by the MODEL from the message and the pair's last price — a change to them in the code is a DIFF)
   lq.cancel  app user pair id <outcome>
   lq.cancelAll app user pairs <outcome>
   lq.cancelMM app user pair <outcome>
@@ -21,7 +23,8 @@ Lines (tab separated, after `seq`):
   lq.unfarmAndWithdraw app user pool amt x y ext <outcome>
   lq.bb      app
   lq.eb      app matches deps wdrs <outcome>
-                 matches = pair/fills/flows/dust|…   fill = id:buy:paid:recv:matched   flow = pool:buy:paid:recv
+                 matches = pair/fills/flows/dust/last|…   fill = id:buy:paid:recv:matched   flow = pool:buy:paid:recv
+                           last = the pair's LastPrice after the batch (raw) or "-"
                  deps = pool:id:ax:ay:pc,…   wdrs = pool:id:x:y,…
   lq.state   bal=… pairs=… pools=… deps=… wdrs=… orders=… mm=… farm=…      (the REAL state projection)
   lq.inv     ok|broken msg                                                   (the repository's AllInvariants)
@@ -99,11 +102,14 @@ def pBank (s : String) : Option Bank :=
       | _ => none
     | _ => none
 
+def pOptNat (s : String) : Option (Option Nat) := if s = "-" then some none else (pNat s).map some
+
 def pPairs (s : String) : Option (List Pair) :=
   (splitList s ",").mapM fun e =>
     match e.splitOn ":" with
-    | [a, i, b, q, l, bt] => do
-      pure { app := ← pNat a, id := ← pNat i, base := ← pDenom b, quote := ← pDenom q, lastOrderId := ← pNat l, curBatch := ← pNat bt }
+    | [a, i, b, q, l, bt, lp] => do
+      pure { app := ← pNat a, id := ← pNat i, base := ← pDenom b, quote := ← pDenom q, lastOrderId := ← pNat l, curBatch := ← pNat bt,
+             lastPrice := ← pOptNat lp }
     | _ => none
 
 def pPools (s : String) : Option (List Pool) :=
@@ -182,9 +188,10 @@ def pReal (f : List String) : Option State := do
 def pApps (s : String) : Option (List AppCfg) :=
   (splitList s ";").mapM fun e =>
     match e.splitOn ":" with
-    | [a, fr, b, ml, pf, plf, md, ms, mp] => do
+    | [a, fr, b, ml, pf, plf, md, ms, mp, tp, mr, mt] => do
       pure { app := ← pNat a, feeRate := ← pNat fr, batchSize := ← pNat b, maxLifespan := ← pInt ml, pairFee := ← pNat pf,
-             poolFee := ← pNat plf, minInitDeposit := ← pNat md, minInitSupply := ← pNat ms, maxPools := ← pNat mp }
+             poolFee := ← pNat plf, minInitDeposit := ← pNat md, minInitSupply := ← pNat ms, maxPools := ← pNat mp,
+             tickPrec := ← pNat tp, maxPriceRatio := ← pNat mr, maxMMTicks := ← pNat mt }
     | _ => none
 
 def pFunds (s : String) : Option (List (Nat × Nat × Nat)) :=
@@ -214,7 +221,8 @@ def pFlows (s : String) : Option (List PoolFlow) :=
 def pMatches (s : String) : Option (List MatchIn) :=
   (splitList s "|").mapM fun e =>
     match e.splitOn "/" with
-    | [p, fs, fl, d] => do pure { pair := ← pNat p, fills := ← pFills fs, pools := ← pFlows fl, dust := ← pNat d }
+    | [p, fs, fl, d, lp] => do
+      pure { pair := ← pNat p, fills := ← pFills fs, pools := ← pFlows fl, dust := ← pNat d, last := ← pOptNat lp }
     | _ => none
 
 def pDepIns (s : String) : Option (List DepIn) :=
@@ -238,10 +246,11 @@ def pOp (f : List String) : Option (Op × String) :=
     pure (.createPool (← pNat a) (← pNat u) (← pNat p) (← pBool r) (← pNat dx) (← pNat dy) (← pNat ps) (← pBool e), o)
   | ["lq.deposit", a, u, p, dx, dy, e, o] => do pure (.deposit (← pNat a) (← pNat u) (← pNat p) (← pNat dx) (← pNat dy) (← pBool e), o)
   | ["lq.withdraw", a, u, p, pc, e, o] => do pure (.withdraw (← pNat a) (← pNat u) (← pNat p) (← pNat pc) (← pBool e), o)
-  | ["lq.order", a, u, p, t, b, mo, mp, pr, am, l, e, o] => do
-    pure (.order (← pNat a) (← pNat u) (← pNat p) (← pOType t) (← pBool b) (← pNat mo) (← pNat mp) (← pNat pr) (← pNat am) (← pInt l) (← pBool e), o)
-  | ["lq.mmOrder", a, u, p, bs, ss, l, e, o] => do
-    pure (.mmOrder (← pNat a) (← pNat u) (← pNat p) (← pTicks bs) (← pTicks ss) (← pInt l) (← pBool e), o)
+  | ["lq.order", a, u, p, t, b, od, dd, mo, mp, am, l, o] => do
+    pure (.order (← pNat a) (← pNat u) (← pNat p) (← pOType t) (← pBool b) (← pDenom od) (← pDenom dd) (← pNat mo) (← pNat mp)
+            (← pNat am) (← pInt l), o)
+  | ["lq.mmOrder", a, u, p, xs, ns, sa, xb, nb, ba, l, o] => do
+    pure (.mmOrder (← pNat a) (← pNat u) (← pNat p) (← pNat xs) (← pNat ns) (← pNat sa) (← pNat xb) (← pNat nb) (← pNat ba) (← pInt l), o)
   | ["lq.cancel", a, u, p, i, o] => do pure (.cancel (← pNat a) (← pNat u) (← pNat p) (← pNat i), o)
   | ["lq.cancelAll", a, u, ps, o] => do pure (.cancelAll (← pNat a) (← pNat u) (← parseNatList ps), o)
   | ["lq.cancelMM", a, u, p, o] => do pure (.cancelMM (← pNat a) (← pNat u) (← pNat p), o)
